@@ -21,7 +21,8 @@ FAMILIES = {
     ('unsigned int', 'const uint8_t *, int, const int32_t *, const int32_t *'): 6,
     ('unsigned int', 'const uint8_t *, int, const int32_t *, const int32_t *, unsigned int *'): 7,
 }
-EXPLICIT = {'svt_spatial_full_distortion_kernel': 8, 'svt_residual_kernel8bit': 9, 'svt_residual_kernel16bit': 10, 'svt_aom_sse': 11, 'svt_nxm_sad_kernel': 12, 'svt_picture_average_kernel': 13, 'svt_cdef_filter_block': 14, 'svt_cdef_find_dir': 15}
+EXPLICIT = {'svt_spatial_full_distortion_kernel': 8, 'svt_residual_kernel8bit': 9, 'svt_residual_kernel16bit': 10, 'svt_aom_sse': 11, 'svt_nxm_sad_kernel': 12, 'svt_picture_average_kernel': 13, 'svt_cdef_filter_block': 14, 'svt_cdef_find_dir': 15,
+            'svt_av1_quantize_fp': 16, 'svt_av1_quantize_fp_32x32': 16, 'svt_av1_quantize_fp_64x64': 16}
 
 
 def regenerate():
